@@ -11,14 +11,14 @@ def _remap(segs, table):
 
 def models(tier):
     ms = []
-    names = ["H1", "H2", "H3"] + (["H5"] if tier == "thorough" else [])
+    names = ["H1", "H3"] if tier == "cross" else ["H1", "H2", "H3"] + (["H5"] if tier == "thorough" else [])
     for hn in names:
         rng, homes = HOMES[hn]
         nk = len(homes)
         keys = set(range(1, nk + 1))
         tc = dict(Range=rng, NKeys=nk, Vals={1, 2, 3, 4})
         for vi, table in enumerate(([{1: 1, 2: 2}, {1: 3, 2: 4}])):
-            if vi == 1 and hn not in ("H1", "H3"):
+            if vi == 1 and (hn not in ("H1", "H3") or tier == "cross"):
                 continue
             ms.append(dict(tag="%s-v%d" % (hn, vi), consts=dict(Range=rng, NKeys=nk, Vals={1, 2}), subst=dict(Home=hn, Keys="KeysN"),
                            invariants=["WellFormed"], properties=["IdealStep"], workers=2,
@@ -46,6 +46,7 @@ def _rand(rng, steps, nkeys):
 def randoms(tier, rng):
     out = []
     plan = [(1, 30, 2, 1500), (2, 40, 2, 1500), (7, 200, 2, 2500), (0, 600, 1, 3000)] if tier == "quick" else \
+           [(1, 20, 1, 600), (7, 100, 1, 1000)] if tier == "cross" else \
            [(1, 60, 4, 4000), (2, 80, 4, 4000), (7, 400, 4, 8000), (0, 5000, 2, 20000), (13, 1000, 2, 10000)]
     for (r, nk, nseg, steps) in plan:
         real = r if r else 1000
